@@ -1,7 +1,7 @@
 import copy
 
 import rope.base.exceptions
-from rope.base import codeanalyze, evaluate, pyobjects, taskhandle, utils, worder
+from rope.base import evaluate, pyobjects, taskhandle, utils, worder
 from rope.base.change import ChangeContents, ChangeSet
 from rope.refactor import functionutils, occurrences
 
@@ -321,25 +321,38 @@ class _ChangeCallsInModule:
         self.call_changer = call_changer
 
     def get_changed_module(self):
-        word_finder = worder.Worder(self.source)
-        change_collector = codeanalyze.ChangeCollector(self.source)
-        for occurrence in self.occurrence_finder.find_occurrences(self.resource):
-            if not occurrence.is_called() and not occurrence.is_defined():
-                continue
+        source = self.source
+        word_finder = worder.Worder(source)
+        occurrences = [
+            occurrence
+            for occurrence in self.occurrence_finder.find_occurrences(self.resource)
+            if occurrence.is_called() or occurrence.is_defined()
+        ]
+        # From the last occurrence to the first: a call among the arguments
+        # of another call, `f(f(1, 2), 3)`, is rewritten before the outer
+        # one, which then takes the new text of its argument.
+        first_change = len(source)
+        for occurrence in reversed(occurrences):
             start, end = occurrence.get_primary_range()
             begin_parens, end_parens = word_finder.get_word_parens_range(end - 1)
+            if end_parens > first_change:
+                word_finder = worder.Worder(source)
+                first_change = len(source)
+                begin_parens, end_parens = word_finder.get_word_parens_range(end - 1)
             if occurrence.is_called():
                 primary, pyname = occurrence.get_primary_and_pyname()
                 changed_call = self.call_changer.change_call(
-                    primary, pyname, self.source[start:end_parens]
+                    primary, pyname, source[start:end_parens]
                 )
             else:
                 changed_call = self.call_changer.change_definition(
-                    self.source[start:end_parens]
+                    source[start:end_parens]
                 )
             if changed_call is not None:
-                change_collector.add_change(start, end_parens, changed_call)
-        return change_collector.get_changed()
+                source = source[:start] + changed_call + source[end_parens:]
+                first_change = start
+        if source != self.source:
+            return source
 
     @property
     @utils.saveit
